@@ -164,7 +164,14 @@ func shareable(method string, headers [][2]string) (v verdict, L int64, canonica
 	case 0:
 	case 1:
 		a, err := strconv.ParseInt(strings.TrimSpace(ages[0]), 10, 64)
-		if err != nil || a < 0 || a > math.MaxInt32 || strings.TrimSpace(ages[0]) != ages[0] || strings.HasPrefix(ages[0], "+") {
+		if allDigits(ages[0]) && (err != nil || a > math.MaxInt32) {
+			// a delta-seconds value beyond what can be represented is a very large age
+			// (RFC 7234 1.2.1), never a small one: with an ordinary lifetime nothing is left
+			if !open && N <= math.MaxInt32 {
+				return vNo, 0, canonical
+			}
+			open = true
+		} else if err != nil || a < 0 || a > math.MaxInt32 || strings.TrimSpace(ages[0]) != ages[0] || strings.HasPrefix(ages[0], "+") {
 			open = true
 		} else {
 			age = a
@@ -183,6 +190,18 @@ func shareable(method string, headers [][2]string) (v verdict, L int64, canonica
 		return vNo, 0, canonical
 	}
 	return vYes, L, canonical
+}
+
+func allDigits(s string) bool {
+	if s == "" {
+		return false
+	}
+	for i := 0; i < len(s); i++ {
+		if s[i] < '0' || s[i] > '9' {
+			return false
+		}
+	}
+	return true
 }
 
 var c03Methods = []string{"GET", "GET", "GET", "GET", "GET", "GET", "GET", "GET", "GET", "GET", "HEAD", "HEAD", "HEAD", "POST", "PUT", "PATCH", "DELETE", "OPTIONS", "TRACE"}
@@ -302,7 +321,7 @@ func genC03(t *rapid.T) c03Scenario {
 		sc.Headers = append(sc.Headers, [2]string{"Age", rapid.SampledFrom([]string{"1", "2", "59", "60", "61", "3600"}).Draw(t, "ageVal")})
 	case 2:
 		if !canonicalOnly {
-			sc.Headers = append(sc.Headers, [2]string{"Age", rapid.SampledFrom([]string{"-5", "abc", "99999999999999999999", "", "1.5"}).Draw(t, "ageBad")})
+			sc.Headers = append(sc.Headers, [2]string{"Age", rapid.SampledFrom([]string{"-5", "abc", "99999999999999999999", "", "1.5", "9223372036854775808", "4294967296", "18446744073709551616"}).Draw(t, "ageBad")})
 		}
 	}
 	if rapid.IntRange(0, 3).Draw(t, "tier") == 0 {
